@@ -76,8 +76,10 @@ def _rr_calls(facts, body):
             lp = loop_of_block(it, bb)
             if ev and lp is not None and param_path(ev[0]) and param_path(ev[0])[0] == 1 and ev[1] == '*' and lp.whole_over(1) and not lp.early_exits():
                 rcx = Reach(facts, body, Evaluator(facts))
-                if lp.must(rcx, [bb]) and lp.always_entered(rcx):
-                    out.append(((param_path(ev[0])[1][0], (ev[2],) + tuple(ev[3])), bb, body, it, {'loop': True}))
+                fld_ = param_path(ev[0])[1][0]
+                if lp.must(rcx, [bb]) and (lp.always_entered(rcx) or must_pass_unless_noop(
+                        facts, body, it, [lp.head], {'clock': (2, ()), 'field': (1, (fld_,))}, only_field=fld_)):
+                    out.append(((fld_, (ev[2],) + tuple(ev[3])), bb, body, it, {'loop': True}))
         for clo, m in closure_bindings(c.term):
             cb = facts.cb(clo[1])
             if cb is None:
@@ -123,13 +125,13 @@ def rr_cover(ctx):
             # (an early return when the argument clock — or the field itself — is empty skips nothing that could change anything)
             noop = {'clock': (2, ()), 'field': (1, (d[0],))}
             itb0 = interp(facts, body)
-            outer_ok = '_parent_bb' not in m or rc_body.must_pass([m['_parent_bb']]) or must_pass_unless_noop(facts, body, itb0, [m['_parent_bb']], noop)
-            inner_ok = m.get('loop') or rc.must_pass([bb]) or (b is body and must_pass_unless_noop(facts, body, itb0, [bb], noop))
+            outer_ok = '_parent_bb' not in m or rc_body.must_pass([m['_parent_bb']]) or must_pass_unless_noop(facts, body, itb0, [m['_parent_bb']], noop, only_field=d[0])
+            inner_ok = m.get('loop') or rc.must_pass([bb]) or (b is body and must_pass_unless_noop(facts, body, itb0, [bb], noop, only_field=d[0]))
             if m.get('loop') and b is body and '_parent_bb' not in m:
                 # the reset sits in a loop of reset_remove itself: that loop must be reached (same proviso)
                 from .loops import loop_of_block
                 lp_ = loop_of_block(itb0, bb)
-                if lp_ is not None and not rc_body.must_pass([lp_.head]) and not must_pass_unless_noop(facts, body, itb0, [lp_.head], noop):
+                if lp_ is not None and not rc_body.must_pass([lp_.head]) and not must_pass_unless_noop(facts, body, itb0, [lp_.head], noop, only_field=d[0]):
                     inner_ok = False
             if inner_ok and outer_ok:
                 have[d] = (bb, b, it)
